@@ -16,7 +16,7 @@ import os, sys, json, time, hashlib, signal, traceback, collections, itertools, 
 import multiprocessing as mp
 
 VERIF = os.path.dirname(os.path.dirname(os.path.abspath(__file__)))
-REPO = '/repo'
+REPO = os.environ.get('FGGS_REPO', '/repo')
 CASE_TIMEOUT_S = 20.0
 
 
@@ -269,12 +269,21 @@ def match_known(v, known):
     return None
 
 
+def safe_describe(describe, case):
+    if describe is None:
+        return case
+    try:
+        return describe(case)
+    except Exception:
+        return case
+
+
 def write_replay(pid, v, describe):
-    d = os.path.join(VERIF, 'replays')
+    d = os.path.join(VERIF, 'replays') if REPO == '/repo' else '/tmp/mw/replays'
     os.makedirs(d, exist_ok=True)
     case = v.get('case')
     body = {'property': pid, 'kind': v['kind'], 'site': v['site'], 'trigger': v['trigger'],
-            'msg': v['msg'], 'case': jsonable(describe(case) if describe else case),
+            'msg': v['msg'], 'case': jsonable(safe_describe(describe, case)),
             'case_repr': repr(case)}
     s = json.dumps(body, sort_keys=True, indent=1)
     name = '%s-%s.json' % (pid, hashlib.sha1(s.encode()).hexdigest()[:12])
@@ -340,7 +349,7 @@ def finish(check, acc, tier, t0, replay_mode=False):
         'evaluations': int(acc.evaluations),
         'distinct_nontrivial': len(acc.nt),
         'rule': check.RULE,
-        'samples': [jsonable(describe(c) if describe else c) for c in acc.samples[:6]],
+        'samples': [jsonable(safe_describe(describe, c)) for c in acc.samples[:6]],
         'exhaustive': bool(acc.exhaustive and not acc.caps),
         'cases': acc.cases,
         'bounds': jsonable(check.bounds(tier)) if hasattr(check, 'bounds') else {},
@@ -361,7 +370,7 @@ def finish(check, acc, tier, t0, replay_mode=False):
     ev = {'property_id': pid, 'tier': tier, 'seed': seed(), 'level': level, 'coverage': cov,
           'assumptions': list(getattr(check, 'ASSUMPTIONS', [])), 'wall_s': round(wall, 2),
           'violations': int(n_unknown)}
-    d = os.path.join(VERIF, 'evidence')
+    d = os.path.join(VERIF, 'evidence') if REPO == '/repo' else '/tmp/mw/evidence'   # mutant runs never touch evidence/
     os.makedirs(d, exist_ok=True)
     path = os.path.join(d, pid + '.json')
     with open(path, 'w') as f:
